@@ -231,6 +231,19 @@ Section Structure.
       2:{ destruct nn as [l|]; [|exact I]. intros v Hv. exact (Hp l eq_refl v Hv). }
       unfold ensure_weighted. rewrite Hw. reflexivity.
   Qed.
+
+  Theorem total_average_clustering_weighted_guards (g : gstate) nn cz : WF g ->
+    (multi (sp g) = true -> average_clustering_weighted teqb g nn cz = Err WrongMethod) /\
+    (multi (sp g) = false -> some_absent g nn -> average_clustering_weighted teqb g nn cz = Err NodeNotFound) /\
+    (multi (sp g) = false -> all_present g nn -> edges_have_weight g = false ->
+       average_clustering_weighted teqb g nn cz = Err EdgeWeightNotSpecified).
+  Proof.
+    intros W. destruct (total_clustering_weighted_guards g nn W) as (H1 & H2 & H3).
+    unfold average_clustering_weighted. split; [|split].
+    - intros Hm. rewrite (H1 Hm). reflexivity.
+    - intros Hm Ha. rewrite (H2 Hm Ha). reflexivity.
+    - intros Hm Hp Hw. rewrite (H3 Hm Hp Hw). reflexivity.
+  Qed.
 End Structure.
 
 (* ====================================================================================== *)
@@ -754,3 +767,39 @@ Section GraphMLTotal.
     destruct (read_events_total parse (write_events fmt g) (sp g)) as (r & <- & Hp & Hf). auto.
   Qed.
 End GraphMLTotal.
+
+(* ====================================================================================== *)
+(* louvain_partitions / louvain_communities (C13).  PARTIAL: what the family proves is that the
+   model never runs out of fuel (level fuel > N, sweep fuel >= N^N, N = number of nodes), that a
+   returned value is a chain of nested partitions, and that louvain_communities returns the last
+   level whenever louvain_partitions returns (never Err NoPartitions).  NOT a theorem: that no
+   Panic site is reached (the unwraps on internal lookups of louvain.rs and the model's shuffle
+   table [perms] - the oracle standing for the seeded shuffle - being well formed); and negative
+   weights / negative resolution are outside the family's invariants. *)
+From GV Require Import Model.Louvain Spec.PartitionDef Proofs.LouvainOk Proofs.LouvainLevelsOk Proofs.LouvainModelOk.
+
+Section LouvainPartial.
+  Context {T A : Type}.
+  Variable teqb tltb : T -> T -> bool.
+  Hypothesis teqb_spec : forall x y, teqb x y = true <-> x = y.
+  Hypothesis tltb_asym : forall x y, tltb x y = true -> tltb y x = false.
+  Hypothesis tltb_total : forall x y, tltb x y = false -> tltb y x = false -> x = y.
+
+  Theorem louvain_partial lf sf (g : gstate T A) weighted res thr perms :
+    WF teqb tltb g -> weights_ok g weighted -> (0 <= res)%Q ->
+    (length (nodes_vec g) < lf)%nat -> (length (nodes_vec g) ^ length (nodes_vec g) <= sf)%nat ->
+    louvain_partitions teqb tltb lf sf g weighted res thr perms <> OutOfFuel /\
+    louvain_communities teqb tltb lf sf g weighted res thr perms <> OutOfFuel /\
+    (forall ls, louvain_partitions teqb tltb lf sf g weighted res thr perms = Ok ls ->
+       levels_ok (map nname (nodes_vec g)) ls /\
+       louvain_communities teqb tltb lf sf g weighted res thr perms = Ok (last ls [])).
+  Proof.
+    intros W Hw Hres Hlf Hsf.
+    destruct (louvain_partitions_never_out_of_fuel teqb tltb teqb_spec tltb_asym tltb_total
+                lf sf g weighted res thr perms W Hw Hres Hlf Hsf) as (H1 & H2).
+    split; [exact H1|]. split; [exact H2|]. intros ls Hls. split.
+    - exact (louvain_partitions_levels_ok teqb tltb teqb_spec tltb_asym tltb_total lf sf g weighted res thr perms ls W Hls).
+    - exact (proj1 (louvain_communities_of_partitions teqb tltb teqb_spec tltb_asym tltb_total
+                      lf sf g weighted res thr perms ls W Hls)).
+  Qed.
+End LouvainPartial.
